@@ -5,7 +5,7 @@
 import json, os, shutil, subprocess, sys, time
 V = os.path.dirname(os.path.dirname(os.path.abspath(__file__)))
 SCRATCH = os.environ.get("SEED_SCRATCH") == "1"     # evaluate on a scratch copy of /repo (when /repo is in use by other runs)
-src, sid = sys.argv[1], sys.argv[2]
+src, sid = os.path.abspath(sys.argv[1]), sys.argv[2]
 meta = json.load(open(os.path.join(src, "meta.json")))
 props = sys.argv[3:] or [meta["property"]]
 patch, demo = os.path.join(src, "patch.diff"), os.path.join(src, "demo.py")
